@@ -39,4 +39,16 @@ PROPS = {
         trusted_base=["Spec/ViewSpec.v as the reading of the property text"],
         assumptions=["Va is 32 or 64 bits wide, usize is 64 bits; derva_string::<WideStr> is not reachable through the public API (WideStr is crate-private) and is not exercised"],
     ),
+    "C07": dict(
+        claim="Machine-checked proof over an executable model of validate_headers, the header accessors, the section lookups, the format-agnostic constructors and Headers::check_sum: a buffer is accepted exactly when the conjunction the property lists holds, with offsets taken from the PE/COFF specification (C07_validate_accept_32/64; the struct layout is regenerated from src/image.rs on every run and proved equal to the specification constants, C07_layout_matches_format); a valid image of the other bitness gets PeMagic; the wrapper returns the variant matching the magic for every acceptable image (C07_wrapper); after acceptance every accessor returns the region the format prescribes, inside the buffer and aligned (C07_accessor_positions, C07_accessors_in_bounds_*); by_rva is the first containing section; and the dword-wise checksum fold equals the standard 16-bit one's-complement PE checksum for every buffer and length (C07_check_sum, a mod-65535 argument). Tied to /repo by the correspondence check on generated headers (every field mutated, lengths around every structure end, all placements) through both parsers and the wrapper.",
+        note="Trusted: Coq kernel, extraction and glue, tools/gen_layout.py (repr(C)/packed layout rules on x86_64, cross-checked against the size assertions in image.rs), Spec/HeaderSpec.v as the reading of the PE/COFF document. by_name is modelled and compared by correspondence; its theorem is its definition (first section whose 8 name bytes equal the zero-padded query).",
+        bin="headers", driver="headers_driver", model_ml="headers_model", driver_includes=["image.ml"], extract=["Headers"], ocaml_packages=["str"],
+        quick_cases=3000, thorough_cases=200000, case_seconds=5, shrink_fields=["rvas", "names"],
+        correspondence="Model/Headers.v {validate, wrap_from_bytes, accessors, data_dir, sections, by_name, by_rva, check_sum} vs pelite::{pe32,pe64}::{PeFile,PeView}::from_bytes, pelite::{PeFile,PeView}::from_bytes, Pe header accessors, SectionHeaders::{by_name,by_rva}, Headers::check_sum",
+        rule="headers written by the harness's own writer: e_lfanew in {4,0xC,0x3C,0x40,0x41,0x42,0x44,0x80,0xF8, 2^24-4, 2^24, 2^24+4 (sparse 16 MiB buffers)}, SizeOfOptionalHeader in {standard, 0,1,2,3,4,6,0xE0,0xE2,0xF0,0xFFFC,0xFFFF, standard+1..8}, "
+             "NumberOfRvaAndSizes in {0,1,10,15,16,17,2^31,2^32-1}, NumberOfSections field in {actual,0,1,3,96,97,65535}, magic in {0x10b,0x20b,0x107,0,0x20c}, corrupted MZ/PE signatures, SizeOfHeaders/SizeOfImage around each other and the length, "
+             "buffer lengths at every structure end +-1 and not multiples of four, placements 0/1/2/4/6/8/12 mod 16; every buffer goes through pe32, pe64 (file and view) and both wrappers. Non-trivial: accepted, or rejected later than the first two checks.",
+        trusted_base=["Spec/HeaderSpec.v (PE/COFF offsets, acceptance conjunction, standard PE checksum)", "tools/gen_layout.py"],
+        assumptions=["x86_64, 64-bit usize"],
+    ),
 }
